@@ -648,7 +648,7 @@ func (vc *VC) oblige(o *Obligation) {
 
 // splitGoal splits a goal into conjuncts: (and a b) -> a, b ; (=> h (and a b)) -> (=> h a), (=> h b).
 func splitGoal(g string, depth int) []string {
-	if depth > 6 || !strings.HasPrefix(g, "(") {
+	if depth > 200 || !strings.HasPrefix(g, "(") {
 		return []string{g}
 	}
 	switch {
@@ -657,6 +657,20 @@ func splitGoal(g string, depth int) []string {
 		var out []string
 		for _, a := range args[1:] {
 			out = append(out, splitGoal(a, depth+1)...)
+		}
+		return out
+	case strings.HasPrefix(g, "(forall "):
+		args := splitSexprArgs(g)
+		if len(args) != 3 || strings.HasPrefix(args[2], "(! ") {
+			return []string{g}
+		}
+		sub := splitGoal(args[2], depth+1)
+		if len(sub) <= 1 {
+			return []string{g}
+		}
+		var out []string
+		for _, s := range sub {
+			out = append(out, "(forall "+args[1]+" "+s+")")
 		}
 		return out
 	case strings.HasPrefix(g, "(=> "):
